@@ -118,6 +118,12 @@ def run_case(case):
             if nm in ncp.cmds:
                 ncp.handlers[nm] = setup_cmd(nm)
         ncp.config[int(t.EzspConfigId.CONFIG_ADDRESS_TABLE_SIZE)] = 8
+        if case.get("slow_setup"):
+            # the NCP takes a while over every set-up command: a caller can be cancelled between two of them
+            for nm in ("setSourceRoute", "getExtendedTimeout", "lookupNodeIdByEui64", "setExtendedTimeout", "getConfigurationValue",
+                       "getAddressTableRemoteEui64", "setAddressTableRemoteEui64", "replaceAddressTableEntry", "getAddressTableInfo", "setAddressTableInfo"):
+                if nm in ncp.cmds:
+                    ncp.script[nm] = (lambda name, args, d=case["slow_setup"] / 1000.0: ("late", d))
         tasks = []
 
         def start(i, rq):
@@ -236,6 +242,16 @@ def gen_cases(ctx):
                     for who in (0, 1):
                         cases.append({"ver": ver, "rot": at + ver, "reqs": reqs, "stagger": 0 if who == 0 else 5, "cancel": [(who, at)],
                                       "late": 1})
+        # the same with an NCP that takes 10 ms over every set-up command: the caller is cancelled between two set-up commands of its request
+        # while the next request waits for the lock - nothing of the cancelled request may go on afterwards
+        for at in (5, 15, 25, 35, 45):
+            for in_tab in (True, False):
+                if ctx.quick and (at // 10 + ver + int(in_tab)) % 2:
+                    continue
+                reqs = [dict(kind="unicast", dst=0x1111, ans=["ok"], confs=[(30, 0, 0, True)], sr=1, ext=1),
+                        dict(kind="unicast", dst=0x2222, ans=["ok"], confs=[(30, 0, 0, True)], sr=1),
+                        dict(kind="unicast", dst=0x3333, ans=["ok"], confs=[(30, 0, 0, True)], ext=1)]
+                cases.append({"ver": ver, "rot": at + ver, "reqs": reqs, "stagger": 2, "cancel": [(0, at)], "late": 1, "slow_setup": 10, "in_addr_table": in_tab})
         for _ in range(4 if ctx.quick else 600):
             n = rng.randint(2, 4)
             reqs = []
